@@ -143,8 +143,8 @@ func (c Case) layout() ([]byte, []*placed, []*placed) {
 			}
 			out = append(out, th...)
 			total := n.Len
-			if total < first+8 {
-				total = first + 8
+			if total < first+6 { // at least an empty directory (entry count + next-IFD pointer) behind the first-IFD offset
+				total = first + 6
 			}
 			opaque(total - 8)
 			p.cbStart, p.cbEnd = tiffStart+first, len(out)
@@ -344,6 +344,7 @@ func eval(c Case) (f *pbt.Fail) {
 	for _, cl := range calls {
 		if in := innermost(all, cl.start); cl.kind == "exif" && in != nil && in.n.Role == "mdatitem" {
 			heifCallbacks++
+			rec.Class("heif-item-exif-callback-delivered", 1)
 			if cl.start < in.cbStart || cl.end > in.cbEnd {
 				return pbt.Failf("escape:heif-item", "the Exif callback for the HEIF item [%d,%d) was given file bytes [%d,%d)", in.cbStart, in.cbEnd, cl.start, cl.end)
 			}
@@ -446,7 +447,7 @@ func opaqueNode(rt *rapid.T, depth int) Node {
 
 func cmtNode(rt *rapid.T, i int) Node {
 	first := rapid.SampledFrom([]int{8, 8, 8, 9, 16, 26, 100}).Draw(rt, "first")
-	return Node{Type: fmt.Sprintf("CMT%d", i), Role: fmt.Sprintf("cmt%d", i), Len: first + rapid.SampledFrom([]int{8, 10, 30, 200, 511, 512, 513, 1538, 4096, 6000}).Draw(rt, "cmtlen"),
+	return Node{Type: fmt.Sprintf("CMT%d", i), Role: fmt.Sprintf("cmt%d", i), Len: first + rapid.SampledFrom([]int{6, 7, 8, 10, 30, 200, 511, 512, 513, 1538, 4096, 6000}).Draw(rt, "cmtlen"),
 		FirstIFD: first, MM: rapid.Bool().Draw(rt, "mm"), Large: gen.Chance(rt, "large?", 0.1)}
 }
 
@@ -483,7 +484,7 @@ func genTop(rt *rapid.T, brand string) Node {
 	case 2:
 		return Node{Type: "uuid", Role: "xpacket", Len: rapid.SampledFrom([]int{0, 1, 100, 511, 512, 1537, 1538, 1539, 4095, 4096, 4097, 9000}).Draw(rt, "xlen"), Large: gen.Chance(rt, "large?", 0.1)}
 	case 3:
-		pv := Node{Type: "PRVW", Role: "prvw", Len: rapid.SampledFrom([]int{0, 1, 100, 2047, 2048, 2049, 4096, 10000}).Draw(rt, "plen")}
+		pv := Node{Type: "PRVW", Role: "prvw", Len: rapid.SampledFrom([]int{0, 1, 100, 2047, 2048, 2049, 4096, 10000}).Draw(rt, "plen"), Large: gen.Chance(rt, "prvw.large?", 0.15)}
 		return Node{Type: "uuid", Role: "preview", Kids: []Node{pv}}
 	case 4: // meta (HEIF style)
 		m := Node{Type: "meta", Full: true}
@@ -533,6 +534,10 @@ func genHeifItem(rt *rapid.T) Case {
 	}
 	c.Top = append(c.Top, m)
 	for i, k := 0, rapid.IntRange(0, 2).Draw(rt, "between-top"); i < k; i++ {
+		if gen.Chance(rt, "plain-mdat-before?", 0.3) { // image data in an mdat of its own, in front of the one that holds the item
+			c.Top = append(c.Top, Node{Type: "mdat", Len: rapid.SampledFrom([]int{0, 8, 64, 300, 5000}).Draw(rt, "mdat0"), Large: gen.Chance(rt, "large?", 0.2)})
+			continue
+		}
 		c.Top = append(c.Top, opaqueNode(rt, 1))
 	}
 	at := rapid.SampledFrom([]int{0, 1, 2, 3, 4, 5, 6, 7, 8, 9, 12, 16, 17, 100, 4000, 4060, 4070, 4080, 4096, 9000}).Draw(rt, "item_at")
@@ -542,7 +547,11 @@ func genHeifItem(rt *rapid.T) Case {
 	c.Top = append(c.Top, Node{Type: "mdat", Role: "mdatitem", ItemAt: at, ItemLen: rapid.SampledFrom([]int{36, 37, 40, 200, 3000, 5000}).Draw(rt, "item_len"),
 		Len: rapid.SampledFrom([]int{0, 1, 7, 8, 64, 300}).Draw(rt, "after"), MM: rapid.Bool().Draw(rt, "mm"), Large: gen.Chance(rt, "large?", 0.2)})
 	if rapid.Bool().Draw(rt, "trailing-box") {
-		c.Top = append(c.Top, opaqueNode(rt, 1))
+		if gen.Chance(rt, "plain-mdat-after?", 0.4) {
+			c.Top = append(c.Top, Node{Type: "mdat", Len: rapid.SampledFrom([]int{0, 8, 64, 300, 5000}).Draw(rt, "mdat1")})
+		} else {
+			c.Top = append(c.Top, opaqueNode(rt, 1))
+		}
 	}
 	return c
 }
@@ -605,6 +614,7 @@ func record(c Case, kind string) {
 		cls = append(cls, "file-ends-with-box-under-16-bytes")
 	}
 	rec.Case(nt, ev.Hash(file), cls...)
+
 	if nt && n <= 14 {
 		rec.Sample(kind, c)
 	}
